@@ -48,6 +48,8 @@ def run(ck):
     ck.rule("G", "structural decisions dominate a successful root computation; canonical comparison and operand origin")
     ck.rule("E4", "no reachable panic/overflow/out-of-bounds on a malformed opening")
     ck.rule("O", "into_paths returns one path per position in the caller's order")
+    ck.rule("L", "one convention for the order of `leaves` in a batch opening: the position of the leaf's index in the caller's list (readers look it up "
+                 "through map_indexes, builders through a position map), never the rank in the sorted list")
     mg = MustGuards(prog)
     gr = prog.fn(BMP + "::get_root")
     gs = mg.of(gr)
@@ -89,6 +91,7 @@ def run(ck):
     require(ck, "G", "verify:position-in-range", m, "verify rejects iff the position is >= 2^(path length - 1), before the position is used in arithmetic")
     e4(ck, prog)
     order(ck, prog)
+    leaf_order(ck, prog)
 
 
 def merkle_scopes(prog, an):
@@ -172,3 +175,57 @@ def order(ck, prog):
     ck.ob("O", "into_paths:caller-order", ok,
           "into_paths collects get_path(i) for i over the caller's `indexes` slice itself (path k belongs to indexes[k]), "
           f"not over a sorted or de-duplicated copy: {why}", loc=f.loc())
+
+
+def leaf_order(ck, prog):
+    """prove_batch, from_paths (builders) and get_root, into_paths (readers) are siblings over one data layout; a builder that stores leaf k of the
+    SORTED list at slot k produces an opening the readers misread for every unsorted position list"""
+    readers = [prog.fn(BMP + "::get_root"), prog.fn(BMP + "::into_paths")]
+    builders = [prog.fn(BMP + "::from_paths"), prog.fn(MT + "::prove_batch")]
+    for f in list(builders):
+        for b, t in f.calls():
+            for cid in f.closure_args(t):
+                if cid in prog.fns:
+                    builders.append(prog.fns[cid])
+    n_r = n_w = 0
+
+    def is_leaf_vec(t):
+        ta = ((t.get("fn") or {}).get("targs") or [""])[0]
+        return ta.startswith("alloc::vec::Vec<") and "Digest" in ta and "Vec<alloc::vec::Vec" not in ta
+
+    def is_map_lookup(tt):
+        cn = callee_name(tt) or ""
+        ta = ((tt.get("fn") or {}).get("targs") or [""])[0]
+        return cn.endswith("BTreeMap::get") or (cn.endswith("Index::index") and ta.startswith("alloc::collections::btree::map::BTreeMap"))
+    for f in readers:
+        g = flow(f)
+        ck.saw(f)
+        for b, t in f.calls():
+            if not (callee_name(t) or "").endswith("Index::index") or not is_leaf_vec(t):
+                continue
+            rw = g.walk(ops=[t["args"][0]], at=(b, "T"), through=lambda tt: (callee_name(tt) or "").endswith(("Deref::deref", "DerefMut::deref_mut")))
+            if (BMP, "leaves") not in g.fields_in(rw):
+                continue
+            n_r += 1
+            iw = g.walk(ops=[t["args"][1]], at=(b, "T"), through=lambda tt: True)
+            ok = any(x.endswith("merkle::map_indexes") for x in g.callee_names_in(iw)) and any(is_map_lookup(f.term(n[1])) for n in iw if n[0] == "c")
+            ck.ob("L", f"{f.nname.split('::')[-1]}:leaves-read#{n_r}", ok,
+                  f"{f.nname.split('::')[-1]} reads self.leaves at the caller-order position obtained from map_indexes", loc=f.loc(b, "T"))
+    for f in builders:
+        g = flow(f)
+        ck.saw(f)
+        for b, t in f.calls():
+            if not (callee_name(t) or "").endswith("IndexMut::index_mut") or not is_leaf_vec(t):
+                continue
+            rw = g.walk(ops=[t["args"][0]], at=(b, "T"), through=lambda tt: (callee_name(tt) or "").endswith(("Deref::deref", "DerefMut::deref_mut")))
+            if g.fields_in(rw):
+                continue  # a field of an existing structure, not the vector being built
+            n_w += 1
+            iw = g.walk(ops=[t["args"][1]], at=(b, "T"), through=lambda tt: True)
+            ok = any(is_map_lookup(f.term(n[1])) for n in iw if n[0] == "c")
+            owner = f.nname.split("::")[-2] if f.kind == "closure" else f.nname.split("::")[-1]
+            ck.ob("L", f"{owner}:leaves-write#{n_w}", ok,
+                  f"{owner} stores a leaf at the slot looked up in a position map (caller order), not at a loop counter over the sorted list",
+                  loc=f.loc(b, "T"))
+    ck.floor("reads of BatchMerkleProof.leaves", n_r, 6)
+    ck.floor("writes of a leaves vector under construction", n_w, 3)
